@@ -57,8 +57,34 @@ def cfg_tag(cfg):
     return t
 
 
-def keyfn(outcome, e, cfg):
-    # mechanism key: outcome @ save strategy : class of the file the crash hit
+def in_uncommitted_overwrite_window(e, events):
+    """strategy 'latest': the crash lies after the mean file of iteration k was moved into place
+    (samples and mean of iteration k-1 are gone) and before last_finished_iteration was advanced"""
+    idx = e["idx"]
+    commits = [x["i"] for x in events if x["kind"] == "rename" and x["path"] == "last_finished_iteration"]
+    nxt = [c for c in commits if c > idx or (c == idx and e["phase"] == "before")]
+    if not nxt:
+        return False
+    j_commit = nxt[0]
+    prev = [c for c in commits if c < j_commit]
+    if not prev:
+        return False            # first iteration: nothing committed yet, resume starts from scratch
+    j_prev = prev[-1]
+    means = [x["i"] for x in events if j_prev < x["i"] < j_commit and x["kind"] == "rename"
+             and x["path"].endswith(("latest.mean.pickle", "latest.0.pickle"))]
+    means = [x["i"] for x in events if j_prev < x["i"] < j_commit and x["kind"] == "rename"
+             and x["path"].endswith("latest.mean.pickle")] or means[-1:]
+    if not means:
+        return False
+    j_mean = means[0]
+    return idx > j_mean or (idx == j_mean and e["phase"] != "before")
+
+
+def keyfn(outcome, e, cfg, events):
+    # mechanism key: outcome @ save strategy : semantic window, else class of the file the crash hit
+    if outcome == "resume-differs" and cfg.get("save_strategy", "latest") == "latest" \
+            and in_uncommitted_overwrite_window(e, events):
+        return f"resume-differs@{cfg_tag(cfg)}:samples-and-mean-replaced-before-commit"
     return f"{outcome}@{cfg_tag(cfg)}:{CC.fclass(e['path'])}"
 
 
